@@ -44,13 +44,13 @@ CLAIMS = {
     "C04": dict(
         technique="Lean 4 theorems (sampling reproduces world-linear images for any grid pair; data and grid halves of every "
                   "index-only operation use the same offset and size) + exact index correspondence + ramp oracle",
-        text="11 theorems: sampling a world-linear image on any other oriented grid returns the same world-linear function at "
+        text="16 theorems: sampling a world-linear image on any other oriented grid returns the same world-linear function at "
              "every target sample inside the source field of view (either align_corners of either grid); for crop/pad with "
              "per-border margins of either sign, center crop/pad, region of interest, narrow and valid convolution the "
              "tensor-side offset and size equal the grid-side ones for all sizes and arguments; a grid whose origin is the old "
              "sample `first` places new sample j at old sample j+first. Offsets are compared exactly with the implementation "
              "(index-coded data, distinct per-image grids); ramps are pushed through every operation and compositions of up to 3 "
-             "with a geometric validity mask. Resizing of a world-linear image reproduces it at the new sample positions (C04_resize_ramp, C04_sample_ramp). The options of Image / ImageBatch.pyramid (finest-level spacing, explicit align_corners different from the grid's flag) are covered by an oracle that ties every level to Grid.pyramid of the requested convention and found the defect repaired by 8cc5ad1. One known finding: compositions through grids with fractional size (data and grid sizes disagree).",
+             "with a geometric validity mask. Resizing of a world-linear image reproduces it at the new sample positions (C04_resize_ramp, C04_sample_ramp). The finest level of Image / ImageBatch.pyramid: the resize shortcut equals sampling at the new grid's points whenever the cube extents agree under the same convention (theorems on the model of the decision; the pre-repair comparison across conventions is refuted by a witness; the decision and the provenance of source_grids are re-read from the source every run), and an oracle ties every level to Grid.pyramid of the requested convention (it found the defect repaired by 8cc5ad1). Every method of Image / FlowField is compared with the batch class on a batch of that one item. One known finding: compositions through grids with fractional size (data and grid sizes disagree).",
         ref="5 C04"),
     "C05": dict(
         technique="Lean 4 theorems: deepali's sampling coordinate pipeline = ITK physToIdx∘idxToPhys (any grid pair, "
@@ -146,12 +146,12 @@ CLAIMS = {
     "C12": dict(
         technique="Lean 4 theorems on index-function models of the finite-difference stencils, flow_derivatives dictionary "
                   "loop, jacobian_det/divergence/curl/lie_bracket + correspondence over all modes/keys/spacing forms",
-        text="25 theorems: every finite-difference mode is exact on affine fields (interior for the one-sided padded "
+        text="27 theorems: every finite-difference mode is exact on affine fields (interior for the one-sided padded "
              "schemes, everywhere for forward_central_backward and - after the repair ebd9a4d of the averaging - for sobel/prewitt), "
              "second derivatives of affine fields vanish at every point for these three, any dilation and spacing form; "
              "second derivatives exact on quadratics in the interior; mixed derivatives symmetric; subset requests return "
              "the same values; jacobian_det = Matrix.det (D=2,3, with/without identity); divergence = trace; curl; Lie "
-             "bracket of affine fields = (AB-BA)x+(Ab-Ba). B-spline mode is tied by correspondence (its theorem is C14's). Integer-dtype inputs and the FlowFields / FlowField / modules.Curl entry points are covered by an oracle only (two defects found there were repaired: 57bfa1a, 22c2426).",
+             "bracket of affine fields = (AB-BA)x+(Ab-Ba). B-spline mode is tied by correspondence (its theorem is C14's). The spacing FlowFields.curl / FlowField.curl derive from the vector representation is the step between neighbouring grid points in those axes, hence their curl of an affine field is the analytic one (theorems + 5 obligations regenerated from the source); integer-dtype inputs and modules.Curl are covered by an oracle only (two defects found there were repaired: 57bfa1a, 22c2426).",
         ref="5 C12"),
     "C14": dict(
         technique="Lean 4 polynomial identities for the cubic B-spline weight tables, both evaluation algorithms, control "
